@@ -920,6 +920,10 @@ func (te *TEnv) call(x *ECall) TV {
 		for i := range x.Args {
 			as = append(as, arg(i).t)
 		}
+		if al.name == "str.len" && len(as) == 1 && len(as[0]) >= 2 && as[0][0] == '"' && !strings.Contains(as[0][1:len(as[0])-1], "\"") && !strings.Contains(as[0], "\\u") {
+			// the length of a literal is a number (keeps bounds reasoning out of the string theory)
+			return TV{t: fmt.Sprint(len(as[0]) - 2), sort: sortInt}
+		}
 		return TV{t: "(" + al.name + " " + strings.Join(as, " ") + ")", sort: al.ret}
 	}
 	if sig, ok := vc.eng.specs.funSigs[x.Fn]; ok {
